@@ -7,6 +7,7 @@ enumeration is resolved through every naming route, the generated argument parse
 applied with *every* ignore list over the supplied destinations, from two configuration states.
 """
 import io
+import json
 import itertools
 import contextlib
 
@@ -134,13 +135,27 @@ def jobs(tier):
 def run_job(job, ctx):
     single = job.get("single")
     if single:
-        check_schema(ctx, single["spec"], single.get("only"), bottom_up=single.get("bottom_up", False))
+        if single.get("growth"):
+            check_growth(ctx, single["spec"])
+        else:
+            check_schema(ctx, single["spec"], single.get("only"), bottom_up=single.get("bottom_up", False))
         return
     for spec in job["specs"]:
         check_schema(ctx, spec, None)
         if any(isinstance(k, list) for _, k in spec):
             check_schema(ctx, spec, None, bottom_up=True)
+        if "Bool" in json.dumps(spec):
+            check_schema(ctx, with_odd_keys(spec), None)
+        check_growth(ctx, spec)
     ctx.sample({"schema": job["specs"][-1]})
+
+
+ODD_KEYS = {"a": "x__y", "b_c": "z_", "port": "_q"}
+
+
+def with_odd_keys(spec):
+    """the same tree with identifier keys that contain doubled / trailing / leading underscores"""
+    return [[ODD_KEYS.get(k, k), with_odd_keys(v) if isinstance(v, list) else v] for k, v in spec]
 
 
 def check_schema(ctx, spec, only, bottom_up=False):
@@ -292,3 +307,38 @@ def check_schema(ctx, spec, only, bottom_up=False):
                     bad("override|%s|%s|%s" % (kind, why, "empty-cmdline" if not argv else "nonempty"),
                         "state %s argv %s ignore %s: field %s is %s, expected %s" % (state, argv, ign, p0, after[p0], expect[p0]), [state, argv, ign])
     ctx.traces += 1
+
+
+def check_growth(ctx, spec):
+    """enumerate / generate a parser, then add a field to the deepest existing sub-schema, then enumerate again:
+    enumeration, lookup, membership and the parser must all know the new field"""
+    import cincoconfig as cc
+    nested = [p for p, k in paths(spec) if k == "Schema"]
+    if not nested:
+        return
+    schema = build(spec)
+    cc.get_all_fields(schema)
+    cc.generate_argparse_parser(schema, add_help=False)
+    deepest = max(nested, key=lambda p: p.count("."))
+    schema[deepest].late = cc.IntField(default=1)
+    new_path = deepest + ".late"
+    ctx.transitions += 1
+    case = {"spec": spec, "job": "schema", "growth": True}
+    got = [p for p, _, _ in cc.get_all_fields(schema)]
+    ok = new_path in got
+    ctx.case((str(spec), "growth"), "growth:%s" % ("ok" if ok else "stale"), True)
+    if not ok:
+        ctx.violation("C16|growth|enumeration", "schema %s: after adding %s, field enumeration still reports %s" % (spec, new_path, got), case)
+        return
+    parser = cc.generate_argparse_parser(schema, add_help=False, prog="app")
+    opt = "--" + new_path.replace(".", "-").replace("_", "-")
+    if opt not in [o for a in parser._actions for o in a.option_strings]:
+        ctx.violation("C16|growth|parser", "schema %s: after adding %s the generated parser has no %s" % (spec, new_path, opt), case)
+        return
+    cfg = schema()
+    if new_path not in cfg or cfg[new_path] != 1:
+        ctx.violation("C16|growth|config", "schema %s: a configuration built after adding %s does not have it" % (spec, new_path), case)
+    ns = parser.parse_args([opt, "5"])
+    cc.cmdline_args_override(cfg, ns)
+    if cfg[new_path] != 5:
+        ctx.violation("C16|growth|override", "schema %s: %s 5 was not applied to %s" % (spec, opt, new_path), case)
